@@ -211,16 +211,78 @@ def ml_string_families(ctx, text, cfg):
     return {"ml_tokens": len(ml), "in_family_with_children": with_children}
 
 
+def equal_penalty_tie(ctx, text, cfg_a, cfg_b):
+    """For the F43 class detector: trace `text` under both configurations (they differ in wrap_column); True iff the decisions
+    differ in at least one top-level logical line and every such line was solved under both with the SAME penalty (two solutions
+    the search values equally: which one it returns depends on the order in which it explores them)."""
+    runs = []
+    for cfg in (cfg_a, cfg_b):
+        c = Case("tie", cfg, [], text)
+        try:
+            results, files, wd = runner.run_cases([c], mode="trace")
+        except Exception:
+            return False
+        ctx.workdirs.append(wd)
+        lines, lab, ws, wd_ = [], None, {}, {}
+        for tf in files:
+            try:
+                fh = open(tf, errors="replace")
+            except OSError:
+                continue
+            with fh:
+                for ln in fh:
+                    p = ln.split()
+                    if not p:
+                        continue
+                    if p[0] == "LINES":
+                        lab = p[1]
+                    elif p[0] in ("STATE", "OUT", "PARSED", "GENERICS", "RAW"):
+                        lab = None
+                    elif p[0] == "l" and lab == "pre":
+                        lines.append((int(p[3]), [int(x) for x in p[6:]]))
+                    elif p[0] == "WS" and len(p) >= 4:
+                        ws[int(p[1])] = (p[2], p[3])
+                    elif p[0] == "WD" and len(p) >= 3:
+                        wd_[int(p[1])] = tuple(p[2:])
+        runs.append((lines, ws, wd_))
+    (la, wsa, wda), (lb, wsb, wdb) = runs
+    if la != lb or not la:
+        return False
+
+    def root(i):
+        seen = 0
+        while 0 <= la[i][0] < len(la) and seen <= len(la):
+            i = la[i][0]
+            seen += 1
+        return i
+    differing = set()
+    for i, (par, toks) in enumerate(la):
+        if any(wda.get(t) != wdb.get(t) for t in toks):
+            differing.add(root(i))
+    if not differing:
+        return False
+    return all(wsa.get(r, ("?",))[0] == "ok" and wsa.get(r) == wsb.get(r) for r in differing)
+
+
 def token_in_line_without_solution(ctx, text, cfg, token):
     """For the F42 class detector: does the token belong to a logical line (or to a descendant of one) for which the
-    search reported `none` or `limit` (hook: WS <line> none|limit <n>)?"""
+    search reported `none` or `limit` (hook: WS <line> none|limit <n>)?  `token` may also name a text-level clause
+    ("leading_blank_line", "two_blank_lines"): then the question is asked of every token whose final newline count breaks it."""
     c = Case("nosol", cfg, [], text)
     try:
         results, files, wd = runner.run_cases([c], mode="trace")
     except Exception:
         return False
     ctx.workdirs.append(wd)
-    lines, lab, failed = [], None, set()
+    # the class is "the search, AS MODELLED, has no solution for the line": an implementation that gives up where the search model
+    # finds a solution is a different violation (and a broken tie), not this finding
+    try:
+        counts, _d, _x, _v = runner.run_driver(files, ["search"])
+    except Exception:
+        return False
+    if list(counts.get("search", [0, 0])) != [1, 0]:
+        return False
+    lines, lab, failed, final, slab = [], None, set(), [], None
     for tf in files:
         try:
             fh = open(tf, errors="replace")
@@ -232,24 +294,37 @@ def token_in_line_without_solution(ctx, text, cfg, token):
                 if not p:
                     continue
                 if p[0] == "LINES":
-                    lab = p[1]
-                elif p[0] in ("STATE", "OUT", "PARSED", "GENERICS", "RAW"):
-                    lab = None
+                    lab, slab = p[1], None
+                elif p[0] == "STATE":
+                    lab, slab = None, p[1]
+                elif p[0] in ("OUT", "PARSED", "GENERICS", "RAW"):
+                    lab = slab = None
+                elif p[0] == "k" and slab == "final" and len(p) >= 3:
+                    final.append(int(p[2]))      # newlines_before of the token after the wrapper
                 elif p[0] == "l" and lab == "pre":
                     lines.append((int(p[3]), [int(x) for x in p[6:]]))
                 elif p[0] == "WS" and len(p) >= 3 and p[2] in ("none", "limit"):
                     failed.add(int(p[1]))
-    for i, (par, toks) in enumerate(lines):
-        if token in toks:
-            j, seen = i, 0
-            while seen <= len(lines):
-                if j in failed:
-                    return True
-                if not (0 <= lines[j][0] < len(lines)):
-                    break
-                j = lines[j][0]
-                seen += 1
-    return False
+    def in_failed(tok):
+        for i, (par, toks) in enumerate(lines):
+            if tok in toks:
+                j, seen = i, 0
+                while seen <= len(lines):
+                    if j in failed:
+                        return True
+                    if not (0 <= lines[j][0] < len(lines)):
+                        break
+                    j = lines[j][0]
+                    seen += 1
+        return False
+
+    if token == "leading_blank_line":       # the text-level clauses: every token whose final counters make the clause fail
+        offenders = [0] if final and final[0] >= 1 else []
+    elif token == "two_blank_lines":
+        offenders = [i for i, nl in enumerate(final) if nl >= 3]
+    else:
+        offenders = [token]
+    return bool(offenders) and all(in_failed(t) for t in offenders)
 
 
 def voided_parent_with_children(ctx, text, cfg):
@@ -759,6 +834,9 @@ def run_c08(ctx):
             m = re.search(r"\btoken (\d+)\b", f.get("detail") or "")
             if m and f.get("kind") == "plan_not_canonical":
                 f["no_solution_line"] = token_in_line_without_solution(ctx, t, tuple(f["cfg"]), int(m.group(1)))
+            elif f.get("kind") in ("leading_blank_line", "two_blank_lines"):
+                # the same clause seen on the text: F42 only if EVERY token whose final newline count makes it fail lies in a line without solution
+                f["no_solution_line"] = token_in_line_without_solution(ctx, t, tuple(f["cfg"]), f["kind"])
     ctx.hypotheses["the wrapper's decisions are those of the search model (Model/WrapSearch.v: one decision per token, invariants respected: search_plan_respects)"] = "unit search on every trace: decisions, measured lengths, search outcomes and final token vector against olf_model"
     ctx.hypotheses["H-W1 canon_fmt (final per-token data: line start => no spaces; continuation => <= 1 space, no indentation; <= 1 blank line)"] = "unit canon on every trace"
     ctx.hypotheses["no content ends in a blank before a line break"] = "unit lineend on every trace (classes F3/F7 matched against known findings)"
@@ -1981,6 +2059,8 @@ def run_c11(ctx):
                                  observed=o1.hex()[:2000], expected=o2.hex()[:2000])
                     if "'''" in (c1.text if isinstance(c1.text, str) else ""):
                         f["ml_families"] = ml_string_families(ctx, c1.text, c1.cfg)
+                    elif isinstance(c1.text, str):
+                        f["equal_penalty_tie"] = equal_penalty_tie(ctx, c1.text, c1.cfg, c2.cfg)
                 if o2.count(b"\n") > o1.count(b"\n"):
                     f = ctx.fail("wider_more_lines", c2, "wrap_column=%d gives %d lines, wrap_column=%d gives %d" % (w2, o2.count(b"\n"), w1, o1.count(b"\n")),
                              observed=o2.hex()[:2000], expected=o1.hex()[:2000], narrow_overflows=bool(maxlen(o1) > w1), wide_overflows=bool(maxlen(o2) > w2), narrow_expensive_break=expensive_break_in(o1))
